@@ -176,8 +176,17 @@ def run_harness(h, cfile, workdir, cfg, tier='quick'):
         if h['enforce']:
             cmd += ['--enforce-contract', h['enforce']]
         repl = list(h['replace'])
-        if h['enforce'] and h['enforce'] in cfg.get('rec_twin', []) and h['enforce'] + '__rec' not in repl:
-            repl.append(h['enforce'] + '__rec')       # a function that became recursive calls its own contract twin
+        if h['enforce']:
+            # every call of a function that has a contract twin goes through the twin (lower/cxxbody.py): a changed tree may
+            # call one that this harness did not expect (a function that became recursive, a new call of isEmpty, ...)
+            try:
+                with open(cfile) as fh_:
+                    ctext = fh_.read()
+            except OSError:
+                ctext = ''
+            for t in cfg.get('rec_twin', []):
+                if t + '__rec' not in repl and len(re.findall(r'\b%s__rec\(' % re.escape(t), ctext)) > 1:
+                    repl.append(t + '__rec')
         for r in repl:
             cmd += ['--replace-call-with-contract', r]
         if h['loopc']:
@@ -283,6 +292,15 @@ def run_harness(h, cfile, workdir, cfg, tier='quick'):
     if undefined:
         res['status'] = 'error'
         res['detail'] = 'the lowered code calls functions for which /verif/specs has no model: %s' % undefined
+        return res
+    def _local_frame(f):
+        return bool(re.match(r'^Check that \w+ is assignable$', f['description'] or '')) and \
+            (f.get('function') or '').replace('_wrapped_for_contract_checking', '') == (h['enforce'] or '')
+    if res['failed'] and all(_local_frame(f) for f in res['failed']):
+        # only the frame of a loop contract is affected (a new local variable inside a loop under contract): the loop contract
+        # has to be extended before anything can be said; this is not a statement about the property
+        res['status'] = 'error'
+        res['detail'] = 'loop frame out of date: %s' % '; '.join(sorted(set(f['description'] for f in res['failed'])))
         return res
     limits = sorted(set(f['description'] for f in res['failed'] if 'MODEL-LIMIT' in (f['description'] or '')))
     if limits:
